@@ -128,4 +128,52 @@ theorem classify_other_shape {s : Node} {x : Conn} {short : Bool} :
   repeat' split
   all_goals simp_all
 
+theorem classify_will_shape {s : Node} {x : Conn} {short : Bool} {ct : CType} {cmd : LockCmd} :
+    classify s x short (.will ct cmd) = .ign ∨ classify s x short (.will ct cmd) = .busy ∨ classify s x short (.will ct cmd) = .loc := by
+  unfold classify
+  repeat' split
+  all_goals simp_all
+
+/-! ### will commands are handled before `classify` -/
+
+theorem will_or_not (q : Req) : (∃ ct cmd, q = .will ct cmd) ∨ (∀ ct cmd, q ≠ .will ct cmd) := by
+  cases q <;> simp
+
+theorem stepRequest_eq {s : Node} {c : Nat} {short : Bool} {q : Req} (hq : ∀ ct cmd, q ≠ .will ct cmd) :
+    stepRequest s c short q =
+    match s.conns[c]? with
+    | none => (s, { tag := .ign })
+    | some x => ({ s with conns := s.conns.set c (applyConn s c x (reqRid q) (classify s x short q)).1 },
+                 (applyConn s c x (reqRid q) (classify s x short q)).2) := by
+  cases q with
+  | will ct cmd => exact absurd rfl (hq ct cmd)
+  | lk _ _ _ _ => rfl
+  | init _ _ => rfl
+  | call _ _ => rfl
+  | other => rfl
+
+theorem stepRequest_will (s : Node) (c : Nat) (short : Bool) (ct : CType) (cmd : LockCmd) :
+    stepRequest s c short (.will ct cmd) =
+    match s.conns[c]? with
+    | none => (s, { tag := .ign })
+    | some x => ({ s with conns := s.conns.set c (willConn s c x ct cmd).1 }, (willConn s c x ct cmd).2) := rfl
+
+theorem willConn_client {s : Node} {c : Nat} {x : Conn} {ct : CType} {cmd : LockCmd} {c' : Nat} {m : ToClient}
+    (h : (c', m) ∈ (willConn s c x ct cmd).2.client) : c' = c ∧ m = .textOk := by
+  unfold willConn at h
+  repeat' split at h
+  all_goals simp at h
+  exact h
+
+theorem willConn_fwd (s : Node) (c : Nat) (x : Conn) (ct : CType) (cmd : LockCmd) : (willConn s c x ct cmd).2.fwd = [] := by
+  unfold willConn
+  repeat' split
+  all_goals rfl
+
+theorem willConn_tag (s : Node) (c : Nat) (x : Conn) (ct : CType) (cmd : LockCmd) :
+    (willConn s c x ct cmd).2.tag = .ign ∨ (willConn s c x ct cmd).2.tag = .busy ∨ (willConn s c x ct cmd).2.tag = .stored := by
+  unfold willConn
+  repeat' split
+  all_goals simp
+
 end Slock.Trans
